@@ -1,5 +1,187 @@
-"""C12 — a Task does nothing until started, then behaves like the eager pipeline (structural clauses)."""
-from rules import lib_head
+"""C12 — a Task does nothing until started, then behaves like the eager pipeline (structural clauses).
+
+  R-HEAD        every head kind can be started through Here/Next (see lib_head)
+  R-START       both detail::Start overloads: the chain is rewound first (MoveToCaller), the executor is bound to
+                and the job submitted is the value MoveToCaller returned (the head, not the tail)
+  R-REWIND      MoveToCaller clears every next link it walks and returns the last core
+  R-LAZYATTACH  attaching a step to a Task links it (callback->next = caller) and uses the pre-publication plain
+                store; it never registers with a CAS, never runs or submits anything
+  R-NOSTART     Task factories (Schedule, LazyContract, MakeTask) submit / call / publish nothing
+  R-CANCEL      ~Task cancels exactly a valid, not completed task; Cancel starts the chain on the stopped inline
+                executor; Detach/ToFuture start through detail::Start
+"""
+from rules import lib_core, lib_head
+from vlib import pathwalk
+
+EXEC = 'yaclib::detail::BaseCore::_executor'
+
+
+class StartWalker(pathwalk.Walker):
+    def on_node(self, fn, n, st):
+        k = n['k']
+        loc = fn.loc(n)
+        if k == 'BinaryOperator' and n['op'] == '=':
+            l = fn.sn(n['ch'][0])
+            r = fn.sn(n['ch'][1])
+            if l is not None and l['k'] == 'DeclRefExpr' and r is not None and \
+                    r.get('cn') == 'yaclib::detail::MoveToCaller':
+                st.events.append(('rewind', fn.locals[l['id']]['n'], loc))
+        elif k == 'DeclStmt':
+            for v in n['vars']:
+                if 'init' in v and (fn.sn(v['init']) or {}).get('cn') == 'yaclib::detail::MoveToCaller':
+                    st.events.append(('rewind', fn.locals[v['id']]['n'], loc))
+        elif k == 'CXXOperatorCallExpr' and n.get('op') == '=' and n.get('args'):
+            t = fn.sn(n['args'][0])
+            if t is not None and t['k'] == 'MemberExpr' and t['dn'] == EXEC:
+                st.events.append(('bind', fn.text(t['ch'][0]), loc))
+        elif k == 'CXXMemberCallExpr' and n['cn'] == 'yaclib::IExecutor::Submit':
+            st.events.append(('submit', fn.text(n['args'][0]).lstrip('*'), loc))
+
+
+def check_start(ctx, fb, rs):
+    fs = [f for f in fb.by_qn('yaclib::detail::Start') if f.cfg is not None]
+    if len(fs) != 2:
+        ctx.broken('detail::Start overloads: %d found, 2 expected' % len(fs))
+    for f in fs:
+        key = 'R-START detail::Start(%s)' % ('head, executor' if len(f.params) == 2 else 'head')
+        res = StartWalker(fb).run(f)
+        ctx.instance(rs, key, dict(function=f.full, paths=len(res)))
+        for st, _ in res:
+            ev = st.events
+            rew = [i for i, e in enumerate(ev) if e[0] == 'rewind']
+            sub = [i for i, e in enumerate(ev) if e[0] == 'submit']
+            bind = [i for i, e in enumerate(ev) if e[0] == 'bind']
+            msg = None
+            if len(rew) != 1 or len(sub) != 1:
+                msg = 'Start must rewind the chain once (MoveToCaller) and submit exactly one job'
+            elif rew[0] > sub[0] or ev[sub[0]][1] != ev[rew[0]][1]:
+                msg = 'the job submitted is not the head returned by MoveToCaller: the last step is started instead ' \
+                      'of the first one'
+            elif len(f.params) == 2 and (len(bind) != 1 or bind[0] < rew[0] or bind[0] > sub[0] or
+                                         ev[bind[0]][1] != ev[rew[0]][1]):
+                msg = 'the executor passed to ToFuture(e)/Detach(e)/Cancel must be bound to the head returned by ' \
+                      'MoveToCaller before it is submitted (it is bound to %s)' % (
+                          'the tail (before the rewind)' if bind and bind[0] < rew[0] else 'nothing / something else')
+            if msg:
+                ctx.report(rs, key, f.where, msg)
+                break
+
+
+def check_rewind(ctx, fb, rr):
+    fs = [f for f in fb.by_qn('yaclib::detail::MoveToCaller') if f.cfg is not None]
+    if not fs:
+        ctx.broken('MoveToCaller not found')
+    f = fs[0]
+    key = 'R-REWIND detail::MoveToCaller'
+    ctx.instance(rr, key, None)
+    clears = [n for n in f.own_nodes() if n['k'] == 'BinaryOperator' and n['op'] == '=' and
+              (f.sn(n['ch'][0]) or {}).get('mn') == 'next' and f.sn(n['ch'][1]).get('v') == 0]
+    loops = f.cfg.loops()
+    if not clears or not all(f.cfg.pos_of(c['i']) and f.cfg.pos_of(c['i'])[0] in loops for c in clears):
+        ctx.report(rr, key, f.where, 'every next link walked must be cleared (a core whose next stays set is treated as a '
+                   'lazy chain again / walked twice)')
+    rets = [n for n in f.own_nodes() if n['k'] == 'ReturnStmt']
+    if not rets or f.text(rets[0]['ch'][0]) != 'head':
+        ctx.report(rr, key, f.where, 'MoveToCaller must return the core it stopped at (the head of the chain)')
+
+
+def check_lazy_attach(ctx, fb, rl):
+    n = 0
+    for f in fb.by_qn('yaclib::detail::SetCallback'):
+        if f.cfg is None or not f.fta:
+            continue
+        try:
+            bits = int(f.fta[0])
+        except ValueError:
+            continue
+        if not bits & 128:
+            continue
+        n += 1
+        key = 'R-LAZYATTACH detail::SetCallback<Lazy>'
+        ctx.instance(rl, key + ' :: ' + f.full[:120], None)
+        names = [c['cn'].split('::')[-1] for c in f.calls()]
+        bad = [x for x in names if x in ('SetInline', 'SetInlineImpl', 'SetCallback', 'SetCallbackImpl', 'Loop',
+                                         'Submit', 'Call', 'SetResult')]
+        links = [x for x in f.own_nodes() if x['k'] == 'BinaryOperator' and x['op'] == '=' and
+                 (f.sn(x['ch'][0]) or {}).get('mn') == 'next']
+        if bad:
+            ctx.report(rl, key, f.where, 'attaching a step to a Task performs %s: a lazy pipeline must not register with '
+                       'a CAS, run or submit anything before it is started' % bad[0], 'instantiation: ' + f.full[:300])
+        elif 'StoreCallback' not in names or not links:
+            ctx.report(rl, key, f.where, 'a lazy step must be linked (callback->next = caller) and stored with the '
+                       'pre-publication store', 'instantiation: ' + f.full[:300])
+    if n < 5:
+        ctx.broken('lazy SetCallback instantiations missing (%d)' % n)
+
+
+def check_nostart(ctx, fb, rn):
+    n = 0
+    for f in fb.fn.values():
+        if f.qn not in ('yaclib::detail::Schedule', 'yaclib::MakeTask', 'yaclib::Schedule', 'yaclib::LazyContract') or \
+                f.cfg is None:
+            continue
+        n += 1
+        key = 'R-NOSTART ' + f.qn
+        ctx.instance(rn, key + ' :: ' + f.full[:120], None)
+        bad = [c for c in f.calls() if c['cn'].split('::')[-1] in ('Submit', 'Call', 'Loop', 'SetInline', 'SetResult',
+                                                                   'Start', 'Here', 'Next')]
+        if bad:
+            ctx.report(rn, key, f.loc(bad[0]), 'a Task factory performs %s: something runs before the task is started' %
+                       bad[0]['cn'].split('::')[-1], 'instantiation: ' + f.full[:300])
+    if n < 6:
+        ctx.broken('Task factories not instantiated (%d)' % n)
+
+
+def check_cancel(ctx, fb, rc):
+    for f in fb.by_qn('yaclib::Task::~Task'):
+        if f.cfg is None:
+            continue
+        key = 'R-CANCEL Task::~Task'
+        res = lib_core.CoreWalker(fb).run(f)
+        ctx.instance(rc, key + ' :: ' + f.cls[:80], dict(paths=len(res)))
+        for st, _ in res:
+            ev = st.events
+            calls = [e[1].split('::')[-1] for e in ev if e[0] == 'call']
+            valid = [e for e in ev if e[0] == 'valid']
+            cancelled = 'Cancel' in calls
+            ready_tested = 'Ready' in calls
+            if cancelled and not (valid and valid[0][1]):
+                ctx.report(rc, key, f.where, 'an invalid (moved-from) Task is cancelled')
+                break
+            if cancelled and not ready_tested:
+                ctx.report(rc, key, f.where, 'a Task is cancelled without testing whether it already completed: '
+                           'cancelling a completed task restarts its chain and overwrites the stored result')
+                break
+        names = [c['cn'].split('::')[-1] for c in f.calls()]
+        if 'Cancel' not in names:
+            ctx.report(rc, key, f.where, 'a valid, never started Task is destroyed without cancelling its chain (captured '
+                       'functors leak, continuations never complete)')
+    for f in fb.by_qn('yaclib::Task::Cancel'):
+        key = 'R-CANCEL Task::Cancel'
+        ctx.instance(rc, key + ' :: ' + f.cls[:80], None)
+        det = [c for c in f.calls() if c['cn'] == 'yaclib::Task::Detach']
+        ok = False
+        for c in det:
+            for d in f.descendants(c['i']):
+                x = f.nodes[d]
+                if x.get('cn') == 'yaclib::MakeInline' and any('StopTag' in f.nodes[y].get('t', '')
+                                                                for y in f.descendants(x['i'])):
+                    ok = True
+        if not ok:
+            ctx.report(rc, key, f.where, 'Cancel must start the chain on the stopped inline executor '
+                       '(MakeInline(StopTag{})) so that every step is Dropped and sees StopError')
+    for f in fb.fn.values():
+        if f.qn in ('yaclib::Task::Detach', 'yaclib::Task::ToFuture') and f.cfg is not None:
+            key = 'R-CANCEL %s(%s)' % (f.qn, 'e' if f.params else '')
+            ctx.instance(rc, key + ' :: ' + f.cls[:80], None)
+            st = [c for c in f.calls() if c['cn'] == 'yaclib::detail::Start']
+            if len(st) != 1 or (len(st[0]['args']) == 2) != bool(f.params):
+                ctx.report(rc, key, f.where, 'the task must be started through detail::Start with%s the given executor' %
+                           ('' if f.params else 'out'))
+            if f.n == 'Detach':
+                names = [c['cn'].split('::')[-1] for c in f.calls()]
+                if 'StoreCallback' not in names or names.index('StoreCallback') > names.index('Start'):
+                    ctx.report(rc, key, f.where, 'the Drop continuation must be stored before the chain is started')
 
 
 def run(ctx):
@@ -7,5 +189,15 @@ def run(ctx):
     rh = ctx.rule('R-HEAD', 'every Task-head kind, partially evaluated with its construction-time fields, reaches its '
                   'own work when started through Here/Next, without touching the null caller slot or reading the '
                   'starter as a completed core', minimum=30)
+    rs = ctx.rule('R-START', 'Start: rewind, bind the executor to the head, submit the head', minimum=2)
+    rr = ctx.rule('R-REWIND', 'MoveToCaller clears the links and returns the head', minimum=1)
+    rl = ctx.rule('R-LAZYATTACH', 'lazy attach links and plain-stores, nothing runs', minimum=10)
+    rn = ctx.rule('R-NOSTART', 'Task factories start nothing', minimum=10)
+    rc = ctx.rule('R-CANCEL', 'destructor / Cancel / Detach / ToFuture protocol', minimum=10)
     for cfg, fb in sorted(fbs.items()):
         lib_head.check(ctx, fb, cfg, rh, None)
+        check_start(ctx, fb, rs)
+        check_rewind(ctx, fb, rr)
+        check_lazy_attach(ctx, fb, rl)
+        check_nostart(ctx, fb, rn)
+        check_cancel(ctx, fb, rc)
